@@ -402,8 +402,11 @@ func (r *resourceManager) openConnection(dir network.Direction, usefd bool, endp
 		// Failed to open connection, let's see if this was allowlisted and try again
 		allowed := r.allowlist.Allowed(endpoint)
 		if allowed {
+			// The connection keeps its slot in the per-IP connection limiter:
+			// hand it over to the allowlisted scope instead of releasing it.
+			conn.ip = netip.Addr{}
 			conn.Done()
-			conn = newAllowListedConnectionScope(dir, usefd, r.limits.GetConnLimits(), r, endpoint)
+			conn = newAllowListedConnectionScope(dir, usefd, r.limits.GetConnLimits(), r, endpoint, ip)
 			err = conn.AddConn(dir, usefd)
 		}
 	}
@@ -571,7 +574,7 @@ func newConnectionScope(dir network.Direction, usefd bool, limit Limit, rcmgr *r
 	}
 }
 
-func newAllowListedConnectionScope(dir network.Direction, usefd bool, limit Limit, rcmgr *resourceManager, endpoint multiaddr.Multiaddr) *connectionScope {
+func newAllowListedConnectionScope(dir network.Direction, usefd bool, limit Limit, rcmgr *resourceManager, endpoint multiaddr.Multiaddr, ip netip.Addr) *connectionScope {
 	return &connectionScope{
 		resourceScope: newResourceScope(limit,
 			[]*resourceScope{rcmgr.allowlistedTransient.resourceScope, rcmgr.allowlistedSystem.resourceScope},
@@ -580,6 +583,7 @@ func newAllowListedConnectionScope(dir network.Direction, usefd bool, limit Limi
 		usefd:         usefd,
 		rcmgr:         rcmgr,
 		endpoint:      endpoint,
+		ip:            ip,
 		isAllowlisted: true,
 	}
 }
